@@ -10,6 +10,7 @@ lexer's STRING branch, TOKEN_PATTERNS, the real identifier predicates.
 from __future__ import annotations
 
 import ast
+import itertools
 from functools import lru_cache
 
 from verif import extract
@@ -215,6 +216,10 @@ def emit_escape_chain() -> tuple[list[tuple[str, str]], list[str]]:
                 found = declist.replace_chain(n.value, base)
                 # the quoted form must be f'"{escaped}"'
         if found is None:
+            # a site may delegate to another site instead of repeating the chain
+            if mod_fn != "emit_value" and any(isinstance(c, ast.Call) and ast.unparse(c.func) in ("_force_quote_inline_map_value", "emit_value") for c in ast.walk(f)):
+                sites.append(mod_fn + " (delegates)")
+                continue
             raise ExtractionError(f"{mod_fn}: no `escaped = <value>.replace(...)` statement")
         src = ast.unparse(f)
         if "f'\"{escaped}\"'" not in src:
@@ -232,13 +237,65 @@ def emit_escape_chain() -> tuple[list[tuple[str, str]], list[str]]:
                 len(inner) == 2
                 and isinstance(inner[0], ast.If)
                 and ast.unparse(inner[0].test) == "needs_quotes(value)"
+                and not inner[0].orelse
+                and isinstance(inner[0].body[-1], ast.Return)
                 and isinstance(inner[1], ast.Return)
                 and ast.unparse(inner[1].value) == "value"
+            ):
+                ok = True
+            # the same decision with the bare case first: `if not needs_quotes(value): return value; escaped = ...; return f'"{escaped}"'`
+            if (
+                len(inner) == 3
+                and isinstance(inner[0], ast.If)
+                and ast.unparse(inner[0].test) == "not needs_quotes(value)"
+                and not inner[0].orelse
+                and [ast.unparse(x) for x in inner[0].body] == ["return value"]
+                and isinstance(inner[1], ast.Assign)
+                and ast.unparse(inner[1].targets[0]) == "escaped"
+                and isinstance(inner[2], ast.Return)
+                and ast.unparse(inner[2].value) == "f'\"{escaped}\"'"
             ):
                 ok = True
     if not ok:
         raise ExtractionError("emit_value: str branch is not `if needs_quotes(value): <quote>; return value`")
     return chains[0], sites
+
+
+def _callback_table(name: str) -> dict:
+    """table of a `re.sub(r"\\\\(.)", callback, ...)` callback, by exhaustive evaluation of the real function: for every
+    code point c (except newline, which `.` does not match) callback(m) with m.group(1) == c, m.group(0) == '\\\\' + c;
+    entries where the result differs from group(0). The callback may only use group(0) / group(1) (else ExtractionError)."""
+    import importlib
+
+    fn = getattr(importlib.import_module(LEXER), name)
+
+    class _M:
+        __slots__ = ("c",)
+
+        def __init__(self, c):
+            self.c = c
+
+        def group(self, k=0):
+            if k == 0:
+                return "\\" + self.c
+            if k == 1:
+                return self.c
+            raise ExtractionError("unescape callback reads a group other than 0 / 1")
+
+        def __getattr__(self, a):
+            raise ExtractionError(f"unescape callback uses match.{a}")
+
+    table = {}
+    for cp in itertools.chain(range(0, 0xD800), range(0xE000, 0x110000)):
+        c = chr(cp)
+        if c == "\n":
+            continue
+        out = fn(_M(c))
+        if not isinstance(out, str):
+            raise ExtractionError("unescape callback returns a non-string")
+        if out != "\\" + c:
+            table[c] = out
+    return table
 
 
 @lru_cache(maxsize=None)
@@ -274,23 +331,26 @@ def lexer_unescape():
                         raise ExtractionError("STRING branch: substitution pattern is not r'\\\\(.)'")
                     f = extract.find_def(LEXER, v.args[0].id)
                     body = [b for b in f.body if not (isinstance(b, ast.Expr) and isinstance(b.value, ast.Constant))]
-                    if len(body) != 1 or not isinstance(body[0], ast.Return):
-                        raise ExtractionError("unescape callback is not a single return")
-                    r = body[0].value
-                    arg = f.args.args[0].arg
-                    if not (
-                        isinstance(r, ast.Call)
-                        and isinstance(r.func, ast.Attribute)
-                        and r.func.attr == "get"
-                        and isinstance(r.func.value, ast.Name)
-                        and len(r.args) == 2
-                        and ast.unparse(r.args[0]) == f"{arg}.group(1)"
-                        and ast.unparse(r.args[1]) == f"{arg}.group(0)"
-                    ):
-                        raise ExtractionError("unescape callback is not TABLE.get(m.group(1), m.group(0))")
-                    table = consts.get(r.func.value.id)
+                    table = None
+                    if len(body) == 1 and isinstance(body[0], ast.Return):
+                        r = body[0].value
+                        arg = f.args.args[0].arg
+                        if (
+                            isinstance(r, ast.Call)
+                            and isinstance(r.func, ast.Attribute)
+                            and r.func.attr == "get"
+                            and isinstance(r.func.value, ast.Name)
+                            and len(r.args) == 2
+                            and ast.unparse(r.args[0]) == f"{arg}.group(1)"
+                            and ast.unparse(r.args[1]) == f"{arg}.group(0)"
+                        ):
+                            table = consts.get(r.func.value.id)
+                    if table is None:
+                        # any other spelling of the callback: it is a function of ONE character (the pattern is \\(.)),
+                        # so its table is obtained exactly by calling the real callback on every code point
+                        table = _callback_table(v.args[0].id)
                     if not (isinstance(table, dict) and all(isinstance(k, str) and len(k) == 1 and isinstance(x, str) for k, x in table.items())):
-                        raise ExtractionError("unescape table is not a literal {char: text} dict")
+                        raise ExtractionError("unescape table is not a {char: text} mapping")
                     return ("table", dict(table))
             chain = []
             for st in rest:
@@ -337,7 +397,10 @@ def unescape_transducer(al):
 def ob_var(ctx: Ctx, oid: str) -> Outcome:
     """Bare VARIABLE-class strings re-lex to exactly one VARIABLE token with the same text."""
     al = alphabet()
-    cls = bare_classes()["var"]
+    try:
+        cls = bare_classes()["var"]
+    except ExtractionError as e:
+        return Outcome.undecided("declist", str(e))
     bad_total = A.nomark(al) - A.nomark(al)
     n = 0
     for pc in PREV_CTX:
@@ -362,7 +425,10 @@ def _id_expected(prev_char: str) -> A.DFA:
 def ob_ident(ctx: Ctx, oid: str, which: str = "ident") -> Outcome:
     """Bare identifier-class (or annotation-class) strings re-lex to exactly one IDENTIFIER token."""
     al = alphabet()
-    cls = bare_classes()[which]
+    try:
+        cls = bare_classes()[which]
+    except ExtractionError as e:
+        return Outcome.undecided("declist", str(e))
     bad_total = A.nomark(al) - A.nomark(al)
     n = 0
     for pc in PREV_CTX:
@@ -383,7 +449,10 @@ def ob_expr(ctx: Ctx, oid: str) -> Outcome:
     character to one operator token of width 1. Token sequence = ID (OP ID)+ follows by induction on
     the number of segments (the step obligations quantify over every admissible previous character)."""
     al = alphabet()
-    cls = bare_classes()["expr"]
+    try:
+        cls = bare_classes()["expr"]
+    except ExtractionError as e:
+        return Outcome.undecided("declist", str(e))
     ops_text = extract.const(EMITTER, "_UNICODE_OPS")
     ops = al.chars(ops_text)
     c = extract.module_consts(EMITTER)
@@ -556,7 +625,10 @@ def ob_nfc_stable(ctx: Ctx, oid: str) -> Outcome:
     character that could compose with it."""
     al = alphabet()
     inert = frozenset(c for c in range(al.n) if c < 128 or (al.sig_of_class[c][6] == 0 and not al.sig_of_class[c][7]))
-    bare = bare_classes()["bare"]
+    try:
+        bare = bare_classes()["bare"]
+    except ExtractionError as e:
+        return Outcome.undecided("declist", str(e))
     bad_bare = bare & A.concat(al, [A.sigma_star(al), al.all - inert, A.sigma_star(al)])
     n = 2
     wits = []
